@@ -89,7 +89,7 @@ def run(ctx):
         return rc, lines, err
 
     trace_cases = []   # (backend, args, line, fields)
-    parked_short, pipe_full_inline, wake_calls = [], {}, {}
+    parked_short, pipe_full_inline, wake_calls, owner_iters = [], {}, {}, {}
     for b in BACKENDS:
         # ---- schedule(): bursts, exactly once after quiescence, no caller action
         for n in bursts:
@@ -149,6 +149,20 @@ def run(ctx):
                     "(scheduled first%s) is still running" % (" from inside tbb::task_arena(2,1)" if b == "tbb" else ""))
             else:
                 ctx.nontriv(("arena", b))
+        # ---- a task queued by a busy worker (in that worker's own pipe) must be stolen by another worker
+        if b != "debug":
+            for T in (3, 4):
+                args = ["steal", str(T), str(ctx.pick(40, 200))]
+                rc, lines, err = run_mode(b, args, timeout=120)
+                f = kv(lines[-1]) if lines else {}
+                ctx.count(int(f.get("completed", "0")))
+                if rc != 0 or not f:
+                    bad("schedule-crash", b, args, "harness rc=%d: %s" % (rc, san_summary(err)), "no crash, no hang", err)
+                elif f.get("inner_not_run_within_2s") != "0" or f.get("completed") != f.get("iters"):
+                    bad("schedule-starved", b, args, lines[-1] + "   [closure A (on a worker) schedules closure B and spins; another worker must steal B]",
+                        "a closure scheduled from inside a running closure is executed within 2 s by another tasking thread (%d threads)" % T)
+                else:
+                    ctx.nontriv(("steal", b, T))
         # ---- wake-up: one schedule() at a time, timed (sweep 0..100 us) to the idle worker's spin-to-sleep transition
         for T, ms in ((2, ctx.pick(5000, 30000)), (3, ctx.pick(1500, 10000))) if b == "internal" else ((2, ctx.pick(400, 2000)),):
             args = ["wakeup", str(T), str(ms)]
@@ -164,6 +178,29 @@ def run(ctx):
                     "%s us after the previous closure finished, was not run" % (f.get("calls"), f.get("delay_us_of_lost_call")))
             else:
                 ctx.nontriv(("wakeup", b, T))
+        # ---- pipe owner and thief race for the ONLY queued item (internal backend; un-instrumented -O2 build and ASan build)
+        if b == "internal":
+            for pre, label in (("hw_", "un-instrumented -O2"), ("h_", "ASan -O1")):
+                for T in (2, 4):
+                    for variant in ("get", "drop", "pf"):
+                        ms = ctx.pick(350, 2500) if pre == "hw_" else ctx.pick(200, 1500)
+                        args = ["ownerthief", str(T), variant, str(ms)]
+                        rc, lines, err = run_mode(b, args, timeout=60 + ms // 1000, prefix=pre)
+                        ol = [l for l in lines if l.startswith("OWNERTHIEF")]
+                        f = kv(ol[-1]) if ol else {}
+                        ctx.count(int(f.get("iters", "0")))
+                        owner_iters[variant] = owner_iters.get(variant, 0) + int(f.get("iters", "0"))
+                        desc = {"get": "AsyncTask<int> construct + immediate get()", "drop": "AsyncTask<int> construct + immediate destruction",
+                                "pf": "schedule() of one closure + parallel_for(1) on the caller"}[variant]
+                        if rc != 0 or not f:
+                            bad("schedule-owner-thief", b, args, "harness rc=%d (%s build): %s  [tight loop of %s, %d tasking threads]"
+                                % (rc, label, san_summary(err), desc, T), "no crash, no sanitizer report", err)
+                        elif not (f.get("twice") == "0" and f.get("zero") == "0" and f.get("wrong_value") == "0" and f.get("hang") == "0"):
+                            bad("schedule-owner-thief", b, args, ol[-1] + "   [%s build; tight loop of %s]" % (label, desc),
+                                "every task body runs exactly once and the loop does not hang (the queuing thread and a stealing worker "
+                                "must not both claim the only queued item)")
+                        else:
+                            ctx.nontriv(("ownerthief", pre, T, variant))
         # ---- a scheduled closure that schedules a same-type closure and then waits inside the tasking system
         for T in (2, 3):
             args = ["nested", str(T), str(ctx.pick(8, 30))]
@@ -328,6 +365,7 @@ def run(ctx):
     ctx.cov["parkburst_workers_not_all_parked"] = parked_short
     ctx.cov["internal_pipe_full_closures_run_inline_by_writer"] = pipe_full_inline
     ctx.cov["wakeup_calls_swept"] = wake_calls
+    ctx.cov["ownerthief_iterations"] = owner_iters
     ctx.cov["mode_histogram"] = hist
     ctx.cov["backends"] = BACKENDS
     ctx.cov["burst_sizes"] = bursts
@@ -335,7 +373,7 @@ def run(ctx):
     ctx.cov["client_scripts"] = sorted(NGETS)
     ctx.rule = ("per backend (TBB, OpenMP, Internal, Debug; ASan+UBSan): schedule() bursts of %s closures owning heap state (exactly-once "
                 "after quiescence, caller idle); async() x %d over int/long string/vector/slow-logging type (+ outstanding futures); "
-                "arena (first schedule() of a functor type from inside a small tbb::task_arena, later ones from main must run within 2 s); TSan(OpenMP build): poll finished() then get() on string/vector; wakeup (one schedule() at a time, delay swept 0..100 us around the worker's spin-to-sleep transition, each closure must run within 2 s); parkburst (workers parked, 300/1000 pending closures > pipe size); nested (a scheduled closure schedules a same-type closure and waits in AsyncTask::get / parallel_for); AsyncTask<T> x %d repetitions x 6 client scripts x task durations {0,2,12} ms over 5 result types incl. a "
+                "ownerthief (internal: tight loops of AsyncTask construct+get / construct+destroy / schedule+parallel_for(1): owner and thief race for the only queued item); arena (first schedule() of a functor type from inside a small tbb::task_arena, later ones from main must run within 2 s); TSan(OpenMP build): poll finished() then get() on string/vector; wakeup (one schedule() at a time, delay swept 0..100 us around the worker's spin-to-sleep transition, each closure must run within 2 s); parkburst (workers parked, 300/1000 pending closures > pipe size); nested (a scheduled closure schedules a same-type closure and waits in AsyncTask::get / parallel_for); AsyncTask<T> x %d repetitions x 6 client scripts x task durations {0,2,12} ms over 5 result types incl. a "
                 "lifetime-instrumented payload whose slot trace is validated by the extracted model; destroy-while-running x %d; "
                 "one-thread schedule. non-trivial = a case with a non-trivially-constructible result type or a task outliving "
                 "the constructor, or a burst > 1" % (bursts, areps, treps, dreps))
@@ -349,7 +387,8 @@ def run(ctx):
         "the enkiTS LockLessMultiReadPipe is NOT modelled beyond its contract (a write fails when full -> piece run inline by the writer; "
         "a stored piece is handed to exactly one reader; theorem schedule_internal_burst_exactly_once): the 'parkburst' scenario "
         "(T in {2,4} threads, all T-1 workers parked, bursts of 300 and 1000 > 256 pending schedule() calls from one thread) is what "
-        "exercises that contract on the real pipe",
+        "exercises that contract on the real pipe; that each reader-side claim is ONE AtomicCompareAndSwap is read off the AST "
+        "(pipe_claims_atomic_src) and exercised by the 'ownerthief' scenario",
     ]
     ctx.assumptions += [
         "ORACLES (contract stated as Section hypotheses, measured by the harness): tbb::task_arena::enqueue, tbb::task_group, "
